@@ -39,6 +39,14 @@ if earlier:
              'two built-in components (an adapter plus a drawable, a sub-image of a sub-image, a font plus a decoration, a framebuffer used as an '
              'image); specialised `Iterator` methods (`nth`, `size_hint`, `fold`, `count`, `last`) and `Clone`/`Default`/`From` implementations that must agree with the plain ones; caches, memos and fast paths added as optimisations; arithmetic that only misbehaves in release builds (silent wrap-around) or only in debug builds (overflow panic); data or sizes that alias (multiples of 8, 256 or 65536); and behaviour that differs between the first and a later use of the same object. Do not use the `fixed_point` cargo feature. Never run `pkill`/`killall` (other engineers share this machine). If after a '
              'serious search you can only find one acceptable change, deliver one.')
+    if rnd >= 7:
+        extra += (' For THIS round in particular: read the statement sentence by sentence and attack the clause that is LEAST represented in the list above; '
+                  'prefer changes that need a COMBINATION of two or three parameter values to manifest (e.g. one stroke alignment + one size parity + a negative coordinate; '
+                  'one data order + one bit depth + a width that is not a multiple of the pixels per byte; one baseline + one alignment + a multi-line string), '
+                  'or a HISTORY of several operations on the same object/target (second call differs from first, state left behind by an earlier call, an object that was '
+                  'cloned, translated, resized or re-styled before use), or an object obtained through a less common route (a primitive converted from another, '
+                  'a style derived from another, a sub-image of a framebuffer image, a polyline over a slice with an offset, a rectangle from with_corners/with_center). '
+                  'Keep the change realistic: it should read like a plausible refactoring or optimisation.')
 
 text = f"""You are helping to evaluate a verification effort by producing a realistic, subtle bug ("seeded change") in a Rust library. Work ONLY inside the git worktree at {wt} (a checkout of the embedded-graphics repository: a no_std 2D graphics library; workspace = root crate `embedded-graphics` in ./src plus `embedded-graphics-core` in ./core). Do not read or touch /repo or /verif. The machine is offline: use `cargo ... --offline` only; nothing can be downloaded.
 
